@@ -112,16 +112,6 @@ def run(chk):
         inner = [rng.random() < 0.25 for _ in ovs]
         bases.append((name, ovs, inner, args))
 
-    # library candidates per (name, argument types)
-    lib_keys = sorted({(name, " ".join(tstr(t) for t, _ in args)) for name, _, _, args in bases})
-    lresp = run_harness([{"op": "ovl", "f": "list", "prelude": "", "name": n, "args": a} for n, a in lib_keys], per_req_timeout=30.0)
-    lib = {}
-    for key, r in zip(lib_keys, lresp):
-        if "cands" not in r:
-            raise BuildError("ovl list failed: " + json.dumps(r)[:300])
-        lib[key] = [c for c in r["cands"] if c != "dfail"]
-        chk.count("lib:dynamic-factory-failed", sum(1 for c in r["cands"] if c == "dfail"))
-
     progs = []   # (base index, variant kind, program, user overloads (tag, ov), name, args)
     for bi, (name, ovs, inner, args) in enumerate(bases):
         variants = [("base", ovs, inner)]
@@ -152,10 +142,24 @@ def run(chk):
             progs.append((bi, kind, p, v_ovs, v_inner, name, args))
 
     resps = run_harness([{"op": "run", "src": p, "get": ["r"]} for _, _, p, _, _, _, _ in progs], per_req_timeout=30.0)
+    # the library's candidates for (name, argument types), listed in the presence of the user's overloads: a dynamic
+    # function whose factory looks the name up again for an element type (to_str of a sequence -> to_str of the
+    # elements) fails when a user overload makes that inner call ambiguous, and is then no candidate
+    lreqs = []
+    for _, _, _, v_ovs, _, name, args in progs:
+        pre = "".join(decl(name, tag, ov) for tag, ov in v_ovs)
+        lreqs.append({"op": "ovl", "f": "list", "prelude": pre, "name": name, "args": " ".join(tstr(t) for t, _ in args)})
+    lresp = run_harness(lreqs, per_req_timeout=30.0)
+    libs = []
+    for (_, _, _, v_ovs, _, _, _), r in zip(progs, lresp):
+        if "cands" not in r:
+            raise BuildError("ovl list failed: " + json.dumps(r)[:300])
+        cl = r["cands"][:len(r["cands"]) - len(v_ovs)]
+        chk.count("lib:dynamic-factory-failed", sum(1 for c in cl if c == "dfail"))
+        libs.append([c for c in cl if c != "dfail"])
     mlines = []
-    for bi, kind, p, v_ovs, v_inner, name, args in progs:
+    for (bi, kind, p, v_ovs, v_inner, name, args), lc in zip(progs, libs):
         a_toks = " ".join(tstr(t) for t, _ in args)
-        lc = lib[(name, a_toks)]
         cands = []
         order = [x for x, inn in zip(v_ovs, v_inner) if inn]
         for tag, (gens, ps, nreq) in order:
@@ -169,12 +173,11 @@ def run(chk):
     mres = run_model(mlines)
 
     base_out = {}
-    for (bi, kind, p, v_ovs, v_inner, name, args), resp, gm in zip(progs, resps, mres):
+    for (bi, kind, p, v_ovs, v_inner, name, args), resp, gm, lc in zip(progs, resps, mres, libs):
         chk.evaluations += 1
         chk.count("variant:" + kind)
         a_types = [t for t, _ in args]
         a_toks = " ".join(tstr(t) for t in a_types)
-        lc = lib[(name, a_toks)]
         cands = [(tag, "s", bool(gens), ps, nreq) for tag, (gens, ps, nreq) in v_ovs]
         sc = False
         for i, c in enumerate(lc):
